@@ -645,3 +645,29 @@ def anorm(node, fn=None):
     if isinstance(node, list):
         return '; '.join(norm(clone(x)) for x in node)
     return norm(clone(node))
+
+
+# ------------------------------------------------------------ inert statements
+LOG_METHODS = {'debug', 'info', 'warning', 'error', 'critical', 'exception', 'log'}
+
+
+def is_inert_stmt(stmt):
+    """Docstrings, `pass`, and calls of a logger method (``_LOGGER.debug(...)``,
+    ``logging.info(...)``): statements that structural rules about "the first
+    statement", "the only statement" or "exactly these statements" skip."""
+    if isinstance(stmt, ast.Pass):
+        return True
+    if isinstance(stmt, ast.Expr):
+        v = stmt.value
+        if isinstance(v, ast.Constant):
+            return True
+        if isinstance(v, ast.Call) and isinstance(v.func, ast.Attribute) \
+                and v.func.attr in LOG_METHODS:
+            base = dotted(v.func.value) or ''
+            return base.split('.')[-1].lower() in ('_logger', 'logger', 'logging', 'log', '_log')
+    return False
+
+
+def effective(stmts):
+    """The statements of a block without the inert ones."""
+    return [s for s in stmts if not is_inert_stmt(s)]
